@@ -365,10 +365,16 @@ def run_probes(cfg, probes, wd, tag, preamble="", flags=(), batch=48):
 
 
 def load_findings():
+    out = []
     p = os.path.join(VERIF, "KNOWN_FINDINGS.json")
-    if not os.path.exists(p):
-        return []
-    return json.load(open(p))["findings"]
+    if os.path.exists(p):
+        out += json.load(open(p))["findings"]
+    d = os.path.join(VERIF, "findings.d")   # staging area while checks are being written
+    if os.path.isdir(d):
+        for f in sorted(os.listdir(d)):
+            if f.endswith(".json"):
+                out += json.load(open(os.path.join(d, f)))["findings"]
+    return out
 
 
 class Run:
